@@ -99,7 +99,18 @@ def _step_stmt(env, s):
         env[l] = v
 
 
-def walk(fn, start, atoms=None, sinks=(), params=None, stop=(), max_states=20000, call_values=None):
+def return_values(fn, atoms=None, params=None, call_values=None):
+    """set of values the return place can hold at `return` under the assumption (UNK included as 'unknown')"""
+    vals = set()
+
+    def on_return(env):
+        v = env.get(0, UNK)
+        vals.add("unknown" if v is UNK else v)
+    walk(fn, 0, atoms=atoms, params=params, call_values=call_values, on_return=on_return)
+    return vals
+
+
+def walk(fn, start, atoms=None, sinks=(), params=None, stop=(), max_states=20000, call_values=None, on_return=None):
     """returns (set of reached sinks, undecided: True if some switch operand was unknown)"""
     atoms = atoms or {}
     sinks = set(sinks)
@@ -167,4 +178,6 @@ def walk(fn, start, atoms=None, sinks=(), params=None, stop=(), max_states=20000
             stack.append((t["target"], env))
         elif k in ("goto", "drop"):
             stack.append((t["target"], env))
+        elif k == "return" and on_return is not None:
+            on_return(env)
     return reached, undecided[0]
